@@ -85,7 +85,9 @@ type Options struct {
 	SCOverrides  map[string]interface{} // overrides for SmartContractConfig keys
 	FeesEnabled  bool
 	Quiet        bool
-	ExtraGenesis map[string]uint64 // id -> tokens (taken from faucet's share)
+	ExtraGenesis map[string]uint64               // id -> tokens (taken from faucet's share)
+	PreGenesis   func(w *World)                  // after the chain object exists, before the magic block / genesis
+	PostGenesis  func(w *World, gr round.RoundI) // after genesis was added
 }
 
 type World struct {
@@ -100,6 +102,7 @@ type World struct {
 	Keys                     map[string]*Key // by ID
 	ByName                   map[string]*Key
 	Genesis                  *block.Block
+	MagicBlock               *block.MagicBlock
 	Head                     *block.Block // last sealed block
 	Cur                      *block.Block // block being built (nil if none)
 	CurState                 util.MerklePatriciaTrieI
@@ -225,6 +228,9 @@ func New(opt Options) *World {
 	c.SetupStateCache()
 	go c.StartLFMBWorker(ctx)
 	w.Chain = c
+	if opt.PreGenesis != nil {
+		opt.PreGenesis(w)
+	}
 
 	// magic block
 	mb := block.NewMagicBlock()
@@ -337,11 +343,17 @@ func New(opt Options) *World {
 	gr, gb := c.GenerateGenesisBlock(encryption.Hash("verif genesis"), mb, init)
 	_ = gr
 	c.AddGenesisBlock(gb)
-	c.AddRound(gr)
+	if opt.PostGenesis == nil {
+		c.AddRound(gr)
+	}
 	gb.SetStateStatus(block.StateSuccessful)
 	w.Genesis = gb
 	w.Head = gb
 	w.Now = common.Timestamp(1700000000)
+	w.MagicBlock = mb
+	if opt.PostGenesis != nil {
+		opt.PostGenesis(w, gr)
+	}
 	return w
 }
 
